@@ -15,7 +15,7 @@ PROP = dict(
                     "Exploration, not proof."),
         level_note=("trusts the id->registration model in harness/c11_dispatch.c / c11_cxx.cpp, gcc ASan/UBSan/LSan; outcomes of the library's own "
                     "'unknown event' fallback, of a default id without registration and the default id after mpt_dispatch_hash are adopted, not asserted"),
-        legs=[dict(name="c11_dispatch", src=["c11_dispatch.c"], libs=["mptcore"], batch=512, lsan=True,
+        legs=[dict(name="c11_dispatch", memcheck=1500, src=["c11_dispatch.c"], libs=["mptcore"], batch=512, lsan=True,
                    floors={"mpt_dispatch_set": 200000, "mpt_dispatch_set(clear)": 100000, "mpt_command_set": 50000,
                            "mpt_dispatch_emit(id)": 100000, "mpt_dispatch_emit(message)": 100000, "mpt_dispatch_emit(default)": 50000,
                            "mpt_dispatch_hash": 100000, "mpt_dispatch_hash(nested)": 5000, "mpt_dispatch_fini": 80000,
